@@ -170,6 +170,11 @@ def run(ctx):
                          "tables": {"pp": [], "impute": []}}, extra={"inputs": ins, "cache": "one cache directory, earlier runs held the same rows in other orders"})
     finally:
         shutil.rmtree(cdir, ignore_errors=True)
+    import matrix
+    for run in matrix.runs(ctx):
+        ctx.count("matrix", run["config"][:40])
+        if not run["error"]:
+            oracle(ctx, matrix.as_batch(run), extra={"inputs": run["given"], "matrix": run["config"]})
     # rows given as dicts that carry their own id column (1-based, reversed, shuffled, sparse, textual): what a stage writes
     # back by id or position must still land in the row it was computed from
     pool = ["CC(=O)Cl.CN>>CC(=O)NC", "CC(=O)C>>CC(O)C", "CCBr.CN>>CCNC", "CC(=O)OC.O>>CC(=O)O", "CC(=O)O.CCO>>CC(=O)OCC.O", "CCCOC(=O)C>>OC(=O)C",
